@@ -2,7 +2,7 @@
    Partial by design (DESIGN §C10): exact real arithmetic; LAPACK/ARPACK are certificate-checked oracles in the
    correspondence (Model/C10Check.v). *)
 From Coq Require Import List Arith Bool Reals Ring.
-From PV Require Import Base.Index Base.Sum Np.Array Np.NpR Model.C10Tucker Proofs.C10Proofs Proofs.C10Ttm.
+From PV Require Import Base.Index Base.Sum Np.Array Np.NpR Model.C10Tucker Proofs.C10Proofs Proofs.C10Ttm Proofs.C10Spectral.
 Import ListNotations.
 Local Open Scope R_scope.
 
@@ -68,10 +68,56 @@ Theorem C10_tucker_als_fit : forall (A : E -> F) (S : F -> E),
   (forall c x, inner (S c) x = innerF c (A x)) -> (forall c, A (S c) = c) ->
   forall x, nrm2 E inner (sub x (S (A x))) = nrm2 E inner x - innerF (A x) (A x).
 Proof. exact (tucker_fit E sub inner inner_sym inner_sub F innerF). Qed.
+
+(* the spectral step: an orthonormal eigenbasis of the mode-k Gram matrix of y is given as orthogonal projectors Q_j (component
+   along eigenvector u_j in mode k) resolving the identity, the eigenvalue contract is lambda_j = u_j^T Z u_j = ||Q_j y||^2, and the
+   truncation projector P keeps the first r of them: the energy discarded by P is exactly the sum of the discarded eigenvalues *)
+Theorem C10_spectral_step : forall (Qs : list (E -> E)) (P : E -> E) (r : nat) (y : E) (eig : list R),
+  Forall (oproj E sub inner) Qs ->
+  (forall a b, inner a b = sumR (map (fun Q => inner (Q a) b) Qs)) ->
+  oproj E sub inner P ->
+  (forall a b, inner (P a) b = sumR (map (fun Q => inner (Q a) b) (firstn r Qs))) ->
+  eig = map (fun Q => nrm2 E inner (Q y)) Qs ->
+  nrm2 E inner (sub y (P y)) = sumR (skipn r eig) /\
+  Forall (fun l => 0 <= l) eig /\ sumR eig = nrm2 E inner y.
+Proof. exact (spectral_step E sub inner inner_sym inner_sub inner_pos). Qed.
+
+(* end to end: every mode's rank is chosen by the transliterated rule of hosvd.py on the spectrum of the tensor hosvd looks at
+   (the running, shrunk one when sequential; the original one otherwise) with budget tol^2 ||x||^2 / d  ==>  relative error <= tol *)
+Theorem C10_hosvd_error_bound : forall (sequential : bool) (ms : list (mode_data E)) (x : E) (tolsq : R),
+  let Ps := map (md_P E) ms in
+  let budget := tolsq * nrm2 E inner x / INR (length Ps) in
+  Ps <> [] -> pairwise_commute E Ps -> 0 <= tolsq ->
+  (if sequential then seq_ok E sub inner budget x ms else nonseq_ok E sub inner budget x ms) ->
+  nrm2 E inner (sub x (applyPs E Ps x)) <= tolsq * nrm2 E inner x.
+Proof. exact (hosvd_error_bound E sub inner inner_sym inner_sub inner_pos). Qed.
+
+(* HOOI: replacing the projector of one mode by one that captures at least as much of the tensor projected on all OTHER factors
+   (eigen-oracle contract of nvecs) does not decrease ||core||^2 = ||P_d..P_1 x||^2; any sequence of such updates (a sweep, many
+   sweeps) keeps the reported fit 1 - ||x - T|| / ||x|| from decreasing *)
+Theorem C10_hooi_monotone : forall (Ps1 Ps2 : list (E -> E)) (P P' : E -> E) (x : E),
+  pairwise_commute E (Ps1 ++ P :: Ps2) -> pairwise_commute E (Ps1 ++ P' :: Ps2) ->
+  nrm2 E inner (P (applyPs E (Ps1 ++ Ps2) x)) <= nrm2 E inner (P' (applyPs E (Ps1 ++ Ps2) x)) ->
+  nrm2 E inner (applyPs E (Ps1 ++ P :: Ps2) x) <= nrm2 E inner (applyPs E (Ps1 ++ P' :: Ps2) x).
+Proof. exact (hooi_monotone E inner). Qed.
+
+Theorem C10_hooi_fit_monotone : forall (x : E) (Ps Ps' : list (E -> E)),
+  hooi_steps E inner x Ps Ps' ->
+  Forall (oproj E sub inner) Ps -> pairwise_commute E Ps ->
+  Forall (oproj E sub inner) Ps' -> pairwise_commute E Ps' ->
+  0 < nrm2 E inner x ->
+  nrm2 E inner (applyPs E Ps x) <= nrm2 E inner (applyPs E Ps' x) /\
+  1 - sqrt (nrm2 E inner (sub x (applyPs E Ps x))) / sqrt (nrm2 E inner x) <=
+  1 - sqrt (nrm2 E inner (sub x (applyPs E Ps' x))) / sqrt (nrm2 E inner x).
+Proof. exact (hooi_core_and_fit_monotone E sub inner inner_sym inner_sub). Qed.
 End C10_space.
 Print Assumptions C10_projector_bound.
 Print Assumptions C10_error_bound.
 Print Assumptions C10_tucker_als_fit.
+Print Assumptions C10_spectral_step.
+Print Assumptions C10_hosvd_error_bound.
+Print Assumptions C10_hooi_monotone.
+Print Assumptions C10_hooi_fit_monotone.
 
 (* core relation in ANY mode order: products along different modes commute (every commutative ring, every denotation), so
    X x_n U_n^T over all n is the same tensor whatever dimorder / sequential shrink order the code uses *)
@@ -101,3 +147,28 @@ Example C10_example_projectors :
   nrm2 v3 inner3 (sub3 x (applyPs v3 [drop3; drop2] x)) = 9 + 4 /\
   terms v3 sub3 inner3 x [drop3; drop2] = [nrm2 v3 inner3 (0, 0, 3); nrm2 v3 inner3 (0, 2, 0)].
 Proof. exact projector_bound_example. Qed.
+Example C10_example_spectral :
+  let y : v3 := (1, 2, 3) in
+  let Qs := [keep3; keep1; keep2] in
+  let eig := [9; 1; 4] in
+  Forall (oproj v3 sub3 inner3) Qs /\
+  (forall a b, inner3 a b = sumR (map (fun Q => inner3 (Q a) b) Qs)) /\
+  oproj v3 sub3 inner3 drop2 /\
+  (forall a b, inner3 (drop2 a) b = sumR (map (fun Q => inner3 (Q a) b) (firstn 2 Qs))) /\
+  eig = map (fun Q => nrm2 v3 inner3 (Q y)) Qs /\
+  nrm2 v3 inner3 (sub3 y (drop2 y)) = 4 /\ sumR eig = nrm2 v3 inner3 y.
+Proof. exact spectral_step_example. Qed.
+Example C10_example_hosvd_bound :
+  let x : v3 := (1, 2, 3) in
+  let ms := [MkMode v3 drop1 [keep3; keep2; keep1] 2 [9; 4; 1]; MkMode v3 drop1 [keep2; keep3; keep1] 2 [4; 9; 0]] in
+  seq_ok v3 sub3 inner3 (1 / 2 * nrm2 v3 inner3 x / INR (length (map (md_P v3) ms))) x ms /\
+  pairwise_commute v3 (map (md_P v3) ms) /\
+  nrm2 v3 inner3 (sub3 x (applyPs v3 (map (md_P v3) ms) x)) <= 1 / 2 * nrm2 v3 inner3 x /\
+  nrm2 v3 inner3 (sub3 x (applyPs v3 (map (md_P v3) ms) x)) = 1.
+Proof. exact hosvd_error_bound_example. Qed.
+Example C10_example_hooi :
+  let x : v3 := (1, 2, 3) in
+  hooi_steps v3 inner3 x [keep1; drop3] [keep2; drop1] /\
+  nrm2 v3 inner3 (applyPs v3 [keep1; drop3] x) = 1 /\ nrm2 v3 inner3 (applyPs v3 [keep2; drop1] x) = 4 /\
+  nrm2 v3 inner3 (sub3 x (applyPs v3 [keep2; drop1] x)) <= nrm2 v3 inner3 (sub3 x (applyPs v3 [keep1; drop3] x)).
+Proof. exact hooi_sweep_example. Qed.
